@@ -77,5 +77,267 @@ def rule_mut(repo, tier):
     return res
 
 
+
+
+# ---------------------------------------------------------------- PATCH: retain_ltype restores what it patches
+
+def rule_patch(repo, tier):
+    res = RuleResult('C06.PATCH', 'retain_ltype: every setattr(module, name, wrapper) executed in the try body is matched by a restoring '
+                     'setattr(module, name, original) over the same collection in a finally clause that every exit of the try passes '
+                     '(normal, exception at the yield, exception while patching); the yield is inside the try; retain_ltype is used only '
+                     'as a context manager / decorator', floor=3)
+    f = repo.func(LT, 'retain_ltype')
+    if 'contextmanager' not in ' '.join(f.decorator_names()):
+        res.add(Finding('C06.PATCH', f, 'retain_ltype is no longer a contextmanager', construct='decorator'))
+    tries = [n for n in ast.walk(f.node) if isinstance(n, ast.Try)]
+    pths, _ = paths.function_paths(f.node, limit=4096)
+    n_exc = 0
+    bad = {}
+
+    def classify(call, inl_env):
+        """('patch'|'restore', collection key) for a setattr on a function slot"""
+        if dotted(call.func) != 'setattr' or len(call.args) != 3:
+            return None
+        val = call.args[2]
+        # restoring = the value is the loop variable itself (the original function object); patching = anything derived from it
+        return val
+    def restoring_loops(trynode):
+        """collections K such that the finally clause holds `for v in K: ... setattr(module, name, v)`"""
+        out = set()
+        for st in trynode.finalbody:
+            for n in ast.walk(st):
+                if isinstance(n, ast.For) and isinstance(n.target, ast.Name):
+                    for c in paths.calls_in(n):
+                        if dotted(c.func) == 'setattr' and len(c.args) == 3 and isinstance(c.args[2], ast.Name) and c.args[2].id == n.target.id:
+                            out.add(src(n.iter))
+        return out
+    for ev, ex in pths:
+        raised = False
+        patched, restored = [], set()
+        cur_iter = None
+        for e in ev:
+            if e[0] == 'iter':
+                cur_iter = (dump_iter(e[1]), e[1].target.id if isinstance(e[1].target, ast.Name) else None)
+            if e[0] == 'raised':
+                raised = True
+                n_exc += 1
+            if e[0] == 'finally':
+                # both loops run over the same collection: the restoring loop undoes every slot the patching loop touched,
+                # however many iterations this enumerated path happened to unroll
+                restored |= restoring_loops(e[1])
+            if e[0] == 'stmt':
+                st = e[1]
+                if isinstance(st, ast.Expr) and isinstance(st.value, (ast.Yield, ast.YieldFrom)):
+                    if not any(any(x is st for x in ast.walk(b)) for t in tries for b in t.body):
+                        bad.setdefault('the yield is outside the try block: an exception in the wrapped code skips the restoration', st)
+                for c in paths.calls_in(st):
+                    if dotted(c.func) == 'setattr' and len(c.args) == 3 and cur_iter is not None:
+                        val = c.args[2]
+                        if not (isinstance(val, ast.Name) and val.id == cur_iter[1]):
+                            patched.append(cur_iter[0])
+                            restored.discard(cur_iter[0])      # patched again after a restoration
+        for k in set(patched):
+            if k not in restored:
+                bad.setdefault('a path (%s%s) patches torch internals over `%s` and leaves without passing a finally clause that restores '
+                               'the same collection' % ('exit=' + ex, ', exception raised' if raised else '', k[:60]), f.node)
+    res.inst({'function': f.fq, 'paths': len(pths), 'exception_paths': n_exc}, f.fq)
+    if n_exc == 0:
+        raise AnalysisError('C06.PATCH: no exception path was explored in retain_ltype')
+    for msg, node in bad.items():
+        res.add(Finding('C06.PATCH', f, msg, node=node if node is not f.node else None, construct=msg[:100] if node is f.node else ''))
+    # who-may-call: only as `with retain_ltype():` or `@retain_ltype()`
+    n_use = 0
+    for g in repo.all_functions():
+        for n in ast.walk(g.node):
+            if isinstance(n, ast.Call) and (dotted(n.func) or '').split('.')[-1] == 'retain_ltype':
+                n_use += 1
+                ok = False
+                for m in ast.walk(g.node):
+                    if isinstance(m, (ast.With, ast.AsyncWith)) and any(it.context_expr is n for it in m.items):
+                        ok = True
+                    if isinstance(m, (ast.FunctionDef, ast.AsyncFunctionDef)) and any(d is n for d in m.decorator_list):
+                        ok = True
+                res.inst({'function': g.fq, 'use': src(n), 'as_context_or_decorator': ok}, (g.fq, getattr(n, 'lineno', 0)))
+                if not ok:
+                    res.add(Finding('C06.PATCH', g, 'retain_ltype() is called without entering it as a context manager / decorator', node=n))
+    if n_use == 0:
+        res.notes.append('no user of retain_ltype inside the package besides func.jacrev')
+    return res
+
+
+def dump_iter(fornode):
+    return src(fornode.iter)
+
+
+# ---------------------------------------------------------------- BCAST / BSHAPE
+
+GROUPS = ['SO3', 'SE3', 'RxSO3', 'Sim3']
+ALG = {'SO3': 'so3', 'SE3': 'se3', 'RxSO3': 'rxso3', 'Sim3': 'sim3'}
+BINOPS = {'Act': None, 'Mul': 'G', 'Adj': 'g', 'AdjT': 'g', 'Jinvp': 'g'}
+
+
+def protocol_signature(repo, f):
+    """abstract signature of one binary Type method: for every autograd-op / helper application
+       (ops applied, whether its operands come from broadcast_inputs, whether the result is viewed to out_shape+(dim,),
+        the empty-batch fallback)"""
+    sig = {'broadcast': False, 'ops': set(), 'view_out_shape': False, 'empty_fallback': False, 'ops_on_broadcast': True}
+    inl = inline_straight(f.node)
+    bnames = set()
+    for st, env in inl.log:
+        if isinstance(st, ast.Assign) and isinstance(st.value, ast.Call) and dotted(st.value.func) == 'broadcast_inputs':
+            sig['broadcast'] = True
+            t = st.targets[0]
+            if isinstance(t, ast.Tuple) and len(t.elts) == 2:
+                a = t.elts[0]
+                for x in (a.elts if isinstance(a, ast.Tuple) else [a]):
+                    if isinstance(x, ast.Name):
+                        bnames.add(x.id)
+                if isinstance(t.elts[1], ast.Name):
+                    sig['out_shape_name'] = t.elts[1].id
+    for n in ast.walk(f.node):
+        if isinstance(n, ast.Call) and (dotted(n.func) or '').endswith('.apply'):
+            sig['ops'].add(dotted(n.func))
+            used = {x.id for a in n.args for x in ast.walk(a) if isinstance(x, ast.Name)}
+            if not (used & bnames):
+                sig['ops_on_broadcast'] = False
+        if isinstance(n, ast.Call) and isinstance(n.func, ast.Attribute) and n.func.attr == 'view' and n.args:
+            a = n.args[0]
+            if isinstance(a, ast.BinOp) and isinstance(a.op, ast.Add) and dotted(a.left) == sig.get('out_shape_name') and \
+                    isinstance(a.right, ast.Tuple) and len(a.right.elts) == 1:
+                sig['view_out_shape'] = True
+        if isinstance(n, ast.IfExp) and isinstance(n.body, ast.UnaryOp) and isinstance(n.body.operand, ast.Constant) and n.body.operand.value == 1 \
+                and any(isinstance(c, ast.Call) and isinstance(c.func, ast.Attribute) and c.func.attr == 'nelement' for c in ast.walk(n.test)):
+            sig['empty_fallback'] = True
+    return sig
+
+
+def rule_bcast(repo, tier):
+    res = RuleResult('C06.BCAST', 'each binary Type method follows the flatten-broadcast-unflatten protocol: operands pass through '
+                     'broadcast_inputs, the family\'s own autograd op is applied to its result, the output is viewed to out_shape + (dim,) '
+                     'with the empty-batch fallback; broadcast_inputs returns the true (unpadded) broadcast shape', floor=21)
+    for G in GROUPS:
+        for meth in BINOPS:
+            f = repo.func(LT, '%sType.%s' % (G, meth))
+            sig = protocol_signature(repo, f)
+            want_ops = {'Act': {G + '_Act.apply', G + '_Act4.apply'}, 'Mul': {G + '_Mul.apply'}, 'Adj': {G + '_AdjXa.apply'},
+                        'AdjT': {G + '_AdjTXa.apply'}, 'Jinvp': {G + '_Log.apply'}}[meth]
+            ok = sig['broadcast'] and sig['ops'] == want_ops and sig['view_out_shape'] and sig['empty_fallback'] and sig['ops_on_broadcast']
+            res.inst({'function': f.fq, 'signature': {k: (sorted(v) if isinstance(v, set) else v) for k, v in sig.items()}, 'ok': ok}, f.fq)
+            if not sig['broadcast']:
+                res.add(Finding('C06.BCAST', f, '%sType.%s does not pass its operands through broadcast_inputs' % (G, meth), construct='no broadcast'))
+            elif sig['ops'] != want_ops:
+                res.add(Finding('C06.BCAST', f, '%sType.%s applies %s, expected %s' % (G, meth, sorted(sig['ops']), sorted(want_ops)), construct='ops'))
+            elif not sig['ops_on_broadcast']:
+                res.add(Finding('C06.BCAST', f, '%sType.%s applies its op to operands that did not come from broadcast_inputs' % (G, meth),
+                                construct='op operands'))
+            elif not sig['view_out_shape']:
+                res.add(Finding('C06.BCAST', f, '%sType.%s does not view its result to out_shape + (dim,)' % (G, meth), construct='view'))
+            elif not sig['empty_fallback']:
+                res.add(Finding('C06.BCAST', f, '%sType.%s lost the empty-batch fallback of the last dimension' % (G, meth), construct='empty'))
+    # BSHAPE
+    OPM = 'pypose.lietensor.operation'
+    f = repo.func(OPM, 'broadcast_inputs')
+    ok_all = True
+    n = 0
+    for r in returns_of(f.node):
+        v = inline_straight(f.node, upto=r).value(r.value)
+        if not (isinstance(v, ast.Tuple) and len(v.elts) == 2):
+            continue
+        n += 1
+        shp = v.elts[1]
+        has_bs = any(isinstance(x, ast.Call) and dotted(x.func) == 'torch.broadcast_shapes' for x in ast.walk(shp))
+        unary = any(isinstance(x, ast.Subscript) and src(x).replace(' ', '') == 'x.shape[:-1]' for x in ast.walk(shp))
+        padded = any(isinstance(x, ast.IfExp) for x in ast.walk(shp)) or any(isinstance(x, ast.Tuple) and len(x.elts) == 1 and
+                                                                           isinstance(x.elts[0], ast.Constant) and x.elts[0].value == 1 for x in ast.walk(shp))
+        ok = (has_bs or unary) and not padded
+        res.inst({'function': f.fq, 'returned_shape': src(shp)[:80], 'true_broadcast_shape': ok}, (f.fq, n))
+        if not ok:
+            ok_all = False
+            res.add(Finding('C06.BSHAPE', f, 'broadcast_inputs returns `%s` as output shape: it must be the unpadded torch.broadcast_shapes of '
+                            'the two lshapes (the (1,) padding is only the internal work shape), otherwise un-batched operands come back '
+                            'with lshape (1,)' % src(shp)[:80], node=r))
+    if n == 0:
+        raise AnalysisError('C06.BSHAPE: broadcast_inputs no longer returns (operands, shape)')
+    return res
+
+
+# ---------------------------------------------------------------- WRAP / HANDLED
+
+UT = 'pypose.lietensor.utils'
+SHAPE_ONLY = ['__getitem__', 'view', 'reshape', 'permute', 'cat', 'stack', 'split', 'clone', 'detach', 'to', 'expand', 'gather', 'scatter',
+              'squeeze', 'unsqueeze', 'index_select', 'transpose', 'chunk', 'unbind', 'repeat', 'narrow', 'select']
+
+
+def rule_wrap(repo, tier):
+    res = RuleResult('C06.WRAP', 'wrapper tables: X = partial(LieTensor, ltype=X_type); randn_X -> X_type.randn; identity_X -> X_type.identity; '
+                     'Exp..Jr wrappers call the same-named method; shape-only torch functions are members of HANDLED_FUNCTIONS and '
+                     '__torch_function__ re-attaches the ltype for exactly those', floor=40)
+    m = repo.module(UT)
+    for name in ('SO3', 'so3', 'SE3', 'se3', 'RxSO3', 'rxso3', 'Sim3', 'sim3'):
+        v = m.assigns.get(name)
+        target = lt = None
+        if v is not None:
+            for n in ast.walk(v):
+                if isinstance(n, ast.Call) and dotted(n.func) in ('functools.partial', 'partial') and n.args:
+                    target = dotted(n.args[0])
+                    lt = [dotted(k.value) for k in n.keywords if k.arg == 'ltype']
+        ok = target == 'LieTensor' and lt == [name + '_type']
+        res.inst({'alias': name, 'partial_of': target, 'ltype': lt, 'ok': ok}, 'alias' + name)
+        if not ok:
+            res.add(Finding('C06.WRAP', (m.relpath, getattr(v, 'lineno', 0), m.name + ':' + name), 'alias %s must be partial(LieTensor, ltype=%s_type); '
+                            'found partial(%s, ltype=%s)' % (name, name, target, lt), construct='alias ' + name))
+        for kind in ('randn', 'identity'):
+            f = repo.func(UT, '%s_%s' % (kind, name))
+            rets = returns_of(f.node)
+            ok = len(rets) == 1 and isinstance(rets[0].value, ast.Call) and dotted(rets[0].value.func) == '%s_type.%s' % (name, kind)
+            if ok:
+                # all positional and keyword arguments forwarded
+                c = rets[0].value
+                ok = any(isinstance(a, ast.Starred) for a in c.args) and any(k.arg is None for k in c.keywords)
+            res.inst({'function': f.fq, 'target': '%s_type.%s' % (name, kind), 'ok': ok}, f.fq)
+            if not ok:
+                res.add(Finding('C06.WRAP', f, '%s_%s must return %s_type.%s(*size, **kwargs)' % (kind, name, name, kind), construct='wrapper'))
+    for w in ('Exp', 'Log', 'Inv', 'Retr', 'Act', 'Adj', 'AdjT', 'Jinvp', 'Jr'):
+        f = repo.func(UT, w)
+        rets = returns_of(f.node)
+        pp = f.pos_params
+        ok = len(rets) == 1 and isinstance(rets[0].value, ast.Call) and isinstance(rets[0].value.func, ast.Attribute) and \
+            rets[0].value.func.attr == w and dotted(rets[0].value.func.value) == pp[0] and [dotted(a) for a in rets[0].value.args] == pp[1:]
+        res.inst({'function': f.fq, 'forwards_to': '.%s' % w, 'ok': ok}, f.fq)
+        if not ok:
+            res.add(Finding('C06.WRAP', f, 'pp.%s must return <first argument>.%s(<remaining arguments>)' % (w, w), construct='wrapper'))
+    # HANDLED
+    lm = repo.module(LT)
+    hv = lm.assigns.get('HANDLED_FUNCTIONS')
+    if not isinstance(hv, (ast.List, ast.Tuple, ast.Set)):
+        raise AnalysisError('C06.HANDLED: HANDLED_FUNCTIONS is no longer a literal list')
+    handled = {e.value for e in hv.elts if isinstance(e, ast.Constant)}
+    for fn in SHAPE_ONLY:
+        res.inst({'handled': fn, 'member': fn in handled}, 'h' + fn)
+        if fn not in handled:
+            res.add(Finding('C06.HANDLED', (lm.relpath, hv.lineno, lm.name + ':HANDLED_FUNCTIONS'), 'shape-only function `%s` is not in HANDLED_FUNCTIONS: '
+                            'its result silently degrades to a plain tensor' % fn, construct='handled ' + fn))
+    f = repo.func(LT, 'LieTensor.__torch_function__')
+    # the wrapping (tree_map(wrap, data)) must be guarded by the membership test and use the ltype of a LieTensor argument
+    guard_ok = wrap_ok = False
+    for n in ast.walk(f.node):
+        if isinstance(n, ast.If):
+            t = src(n.test)
+            if 'HANDLED_FUNCTIONS' in t and '__name__' in t and ' in ' in t and 'not in' not in t:
+                inner = [c for c in paths.calls_in(ast.Module(n.body, [])) if dotted(c.func) == 'tree_map']
+                if inner and any(isinstance(x, ast.Return) for b in n.body for x in ast.walk(b)):
+                    guard_ok = True
+    for g in f.nested.values():
+        s = src(g.node)
+        if 'as_subclass' in s and '.ltype = ltype' in s.replace('lt.ltype', '.ltype'):
+            wrap_ok = True
+    res.inst({'function': f.fq, 'guarded_by_membership': guard_ok, 'reattaches_ltype': wrap_ok}, f.fq)
+    if not guard_ok:
+        res.add(Finding('C06.HANDLED', f, '__torch_function__ does not wrap results under `func.__name__ in HANDLED_FUNCTIONS`', construct='guard'))
+    if not wrap_ok:
+        res.add(Finding('C06.HANDLED', f, '__torch_function__ no longer re-attaches the ltype to tensor results', construct='wrap'))
+    return res
+
+
 def rules(repo, tier):
-    return [rule_mut(repo, tier)]
+    return [rule_mut(repo, tier), rule_patch(repo, tier), rule_bcast(repo, tier), rule_wrap(repo, tier)]
